@@ -235,6 +235,24 @@ impl Universe {
                 keys.push(Key::Origin { v6: false, addr: addr as u128, plen, maxlen, asn: 64496 + t.choose(4) as u32 });
             }
         }
+        // IPv6 prefixes with a special form: IPv4-mapped (::ffff:a.b.c.d),
+        // IPv4-compatible, 6to4, NAT64, loopback
+        if t.chance(1, 4) {
+            let v4 = t.bits(32) as u128;
+            for (base, plen) in [
+                ((0xffffu128 << 32) | v4, *t.pick(&[96u8, 104, 120, 128])),
+                (v4, 128),
+                ((0x2002u128 << 112) | (v4 << 80), 48),
+                ((0x0064_ff9bu128 << 96) | v4, *t.pick(&[96u8, 128])),
+                (1, 128),
+            ] {
+                if t.chance(1, 2) {
+                    let addr = if plen == 0 { 0 } else { (base >> (128 - plen as u32)) << (128 - plen as u32) };
+                    let maxlen = plen + t.choose((128 - plen) as u64 + 1) as u8;
+                    keys.push(Key::Origin { v6: true, addr, plen, maxlen, asn: 64496 + t.choose(4) as u32 });
+                }
+            }
+        }
         let n_keys = if big { t.choose(30) } else { t.choose(4) };
         for i in 0..n_keys {
             let mut ski = [0u8; 20];
